@@ -430,6 +430,8 @@ def judge_wait(op, hs_pre, hs_post, vs, obs):
             V("status-while-running", "status %d but the child has not ended" % ret)
         elif t1 != max(t0, end):
             V("status-at-wrong-time", "status at %d, child ended at %d" % (t1, end))
+        elif eff != INFINITE and t1 > t0 + eff:
+            V("blocks-past-timeout", "status at %d; the wait was bounded by %d (the child ended after the bound)" % (t1, t0 + eff))
 
 
 def judge_probe(op, vs, obs):
